@@ -7,6 +7,7 @@ import (
 	"math"
 	"math/rand"
 	"runtime/debug"
+	"time"
 
 	"github.com/cosmos/iavl"
 	ics23 "github.com/cosmos/ics23/go"
@@ -425,7 +426,8 @@ func init() {
 		ID:    "C10",
 		Level: "exploration",
 		Cases: func(tier string) int { return tierN(tier, 640, 20000) },
-		Rule: "two case kinds by index mod 2. (0) fidelity: one history (10-40 ops; incl. empty tree, single leaf, versions whose root is inherited from an earlier version (reference root), pruning, rollback; 1 case in 40 (quick) / 10 (thorough) builds a tree of >5000 leaves so the import needs more than one 10000-node batch); at up to 3 retained versions the Exporter stream is compared node by node with the reference post-order stream of R (key, value, version, height; must end with ErrorExportDone), then imported plain AND through CompressExporter->CompressImporter into fresh stores (random cache / fast index / flush threshold): root hash, latest version, the full model read battery, ICS-23 proofs against the SOURCE root, the raw-storage audit, and 2-4 further commits whose hashes must equal the reference continuing the source history. " +
+		CaseTimeout: 300e9,
+		Rule: "two case kinds by index mod 2. (0) fidelity: one history (10-40 ops; incl. empty tree, single leaf, versions whose root is inherited from an earlier version (reference root), pruning, rollback; 1 case in 39 (quick) / 9 (thorough) builds a tree of >10000 leaves so the import needs three 10000-node batches; for that tree every batch write is additionally failed once: the import must report it, leave nothing visible, and return (a call that never returns is decided from the goroutine dump: caller blocked inside iavl, nobody else inside iavl)); at up to 3 retained versions the Exporter stream is compared node by node with the reference post-order stream of R (key, value, version, height; must end with ErrorExportDone), then imported plain AND through CompressExporter->CompressImporter into fresh stores (random cache / fast index / flush threshold): root hash, latest version, the full model read battery, ICS-23 proofs against the SOURCE root, the raw-storage audit, and 2-4 further commits whose hashes must equal the reference continuing the source history. " +
 			"(1) totality: 150 (quick) / 1000 (thorough) hostile ExportNode sequences per case - mutations of valid streams (drop, duplicate, swap, truncate, heights/versions negative/0/too large/MaxInt64, nil or empty key/value, leaf/inner confusion) and random sequences - fed to Add..Commit (plain or compressed, stopping at the first error or ploughing on): a panic is a violation; if Commit did not succeed, a fresh tree on that store must Load() version 0 with no available versions. A hang trips the per-case watchdog. " +
 			"distinct = hash(kind, config, ops / index); non-trivial = fidelity: >=1 round trip of a non-empty version with >=1 future commit; totality: always.",
 		Assumptions: []string{"R defines the export stream and future hashes; M the contents; ics23 verifier trusted"},
@@ -438,7 +440,7 @@ func init() {
 				runHostileImports(c, n)
 				return
 			}
-			big := (c.Tier != "thorough" && c.Index%80 == 40) || (c.Tier == "thorough" && c.Index%20 == 10)
+			big := (c.Tier != "thorough" && c.Index%78 == 40) || (c.Tier == "thorough" && c.Index%18 == 10)
 			w := map[string]int{"set": 40, "rm": 14, "save": 24, "rollback": 2, "reopen": 4, "load": 1, "delto": 5, "lfo": 2, "delfrom": 1}
 			p := &v1x.GenParams{MinOps: 10, MaxOps: 40, W: w, MaxKeys: 10, InvalidPct: 2, Backends: []string{"mem"}, Initials: []int64{0, 0, 1, 9, 64}}
 			pl := v1x.MakePlan(c.Rng, p)
@@ -453,15 +455,15 @@ func init() {
 			}
 			defer e.Close()
 			if big {
-				for i := 0; i < 5200 && !e.Dead; i++ {
-					e.Apply(v1x.Op{Kind: "set", K: []byte(fmt.Sprintf("big%05d", (i*7919)%5200)), V: []byte{byte(i)}}, false)
-					if i == 3000 {
+				for i := 0; i < 10400 && !e.Dead; i++ {
+					e.Apply(v1x.Op{Kind: "set", K: []byte(fmt.Sprintf("big%05d", (i*7919)%10400)), V: []byte{byte(i)}}, false)
+					if i == 6000 {
 						e.Apply(v1x.Op{Kind: "save"}, false)
 					}
 				}
 				e.Apply(v1x.Op{Kind: "save"}, false)
 				e.Log = e.Log[:0]
-				e.Log = append(e.Log, "…5200 sets in two versions…")
+				e.Log = append(e.Log, "…10400 sets in two versions…")
 				c.Obs("big_trees", 1)
 				if e.Dead {
 					return
@@ -556,7 +558,16 @@ func checkFaultedBigImport(e *v1x.Env, v int64) {
 		w := seam.NewWrap(st)
 		t := iavl.NewMutableTree(w, 0, true, iavl.NewNopLogger())
 		w.ArmFault(i, seam.KBWrite)
-		err := importStream(t, v, stream, false)
+		var err error
+		done, deadlocked, ev := fw.Bounded(60*time.Second, "github.com/cosmos/iavl", func() { err = importStream(t, v, stream, false) })
+		if !done {
+			if deadlocked {
+				e.Bad("exim|import|hang-after-failed-write", "batch write %d of %d of a %d-node import failed; Add/Commit/Close never returned: the calling goroutine is blocked inside iavl and no other goroutine is left inside iavl that could wake it:\n%s", i, n, len(stream), ev)
+			} else {
+				c.Res.Inconcl = "faulted big import: " + ev
+			}
+			return
+		}
 		fired := w.Disarm()
 		if len(fired) == 0 {
 			continue
